@@ -495,7 +495,7 @@ func ruleScope(m *evalModel, r *Report, rule string) {
 						continue
 					}
 					fa, ok := st.Addr.(*ssa.FieldAddr)
-					if !ok || fieldName(fa.X.Type(), fa.Field) != "outer" {
+					if !ok || fieldName(fa.X.Type(), fa.Field) != w.roles().envOuter {
 						continue
 					}
 					n++
@@ -675,7 +675,7 @@ func ruleLookupOrder(w *World, r *Report, e *Engine) {
 					continue
 				}
 				fa, ok := ld.X.(*ssa.FieldAddr)
-				if !ok || fieldName(fa.X.Type(), fa.Field) != "outer" {
+				if !ok || fieldName(fa.X.Type(), fa.Field) != w.roles().envOuter {
 					continue
 				}
 				n++
@@ -955,8 +955,7 @@ func ruleFalsy(m *evalModel, r *Report) {
 	}
 	cond := extractOf(calls[0].call, 0)
 	// condition operand is operand 1 of the form
-	k := m.e.keyOf(calls[0].ast).String()
-	r.check(strings.HasSuffix(k, ".Val[1]") || strings.Contains(describeVal(m.e, calls[0].ast, 0), "a1"), "C01.falsy", m.EVAL, "form evaluated as the condition", calls[0].call.Pos(), "operand 1", "the condition evaluated is not operand 1 of the form")
+	r.check(m.isOperand(calls[0].ast, 1), "C01.falsy", m.EVAL, "form evaluated as the condition", calls[0].call.Pos(), "operand 1", "the condition evaluated is not operand 1 of the form")
 	var cmps []*ssa.BinOp
 	okUses := true
 	for _, ref := range *cond.Referrers() {
@@ -1236,8 +1235,7 @@ func ruleBody(m *evalModel, r *Report) {
 				found = true
 				r.check(m.isCurrentScope(st.Val), "C01.body", m.EVAL, "scope captured by fn", st.Pos(), "the current scope", "the closure does not capture the scope it is defined in")
 			case "Params":
-				k := m.e.keyOf(st.Val).String()
-				r.check(strings.HasSuffix(k, ".Val[1]") || describeVal(m.e, st.Val, 0) == "a1", "C01.body", m.EVAL, "parameters of fn", st.Pos(), "operand 1", "the parameter list is not operand 1")
+				r.check(m.isOperand(st.Val, 1), "C01.body", m.EVAL, "parameters of fn", st.Pos(), "operand 1", "the parameter list is not operand 1")
 			case "IsMacro":
 				c, ok := st.Val.(*ssa.Const)
 				r.check(ok && c.Value != nil && !constant.BoolVal(c.Value), "C12.flag", m.EVAL, "fn builds an ordinary function", st.Pos(), "IsMacro:false", "fn creates a macro")
@@ -1458,7 +1456,6 @@ func anyPredIn(b *ssa.BasicBlock, blocks map[*ssa.BasicBlock]bool) bool {
 
 var _ = types.Universe
 
-
 // listLiteralVal: for a value that is (a boxed) List/Vector composite literal, the value stored into its Val field.
 func listLiteralVal(v ssa.Value) ssa.Value {
 	if mi, ok := v.(*ssa.MakeInterface); ok {
@@ -1537,7 +1534,6 @@ func symbolLiteral(v ssa.Value) string {
 	return ""
 }
 
-
 // indexOfElem: for a value that is (an assertion on) the element seq[idx] loaded from a slice, the linear form of idx.
 func indexOfElem(e *Engine, v ssa.Value) (Term, int64, bool) {
 	for depth := 0; depth < 4; depth++ {
@@ -1559,7 +1555,6 @@ func indexOfElem(e *Engine, v ssa.Value) (Term, int64, bool) {
 	}
 	return Term{}, 0, false
 }
-
 
 // cmpKind: the constant a comparison of v is made with: "nil", "false" or "other".
 func cmpKind(c *ssa.BinOp, v ssa.Value) string {
@@ -1693,7 +1688,6 @@ func isBoolType(t types.Type) bool {
 	return ok && b.Info()&types.IsBoolean != 0
 }
 
-
 // childKind: the kind of a scope created as a child of parent.
 func (m *evalModel) childKind(parent ssa.Value, call *ssa.Call) (scopeKind, *ssa.Call) {
 	if m.isCurrentScope(parent) {
@@ -1762,7 +1756,6 @@ func (m *evalModel) returnsChildOfParam(h *ssa.Function) (int, bool) {
 	return idx, n > 0 && idx >= 0
 }
 
-
 // doMode: "all" when the body helper is called with to == 0 (every form evaluated, value returned),
 // "tail" when to == -1 (last form returned unevaluated), "" otherwise.
 func doMode(call *ssa.Call) string {
@@ -1784,7 +1777,6 @@ func doMode(call *ssa.Call) string {
 	return ""
 }
 
-
 // doCallMode: the mode (see doMode) of the calls of the body helper inside fn, "" when they disagree or there are none.
 func doCallMode(fn, doFn *ssa.Function) string {
 	mode := ""
@@ -1796,4 +1788,37 @@ func doCallMode(fn, doFn *ssa.Function) string {
 		mode = mm
 	}
 	return mode
+}
+
+// isOperand: v is operand number idx of a list form, whatever local it travelled through: every producer of the
+// value is nil (the operand is absent) or an element load `.Val[idx]`.
+func (m *evalModel) isOperand(v ssa.Value, idx int) bool {
+	suffix := fmt.Sprintf(".Val[%d]", idx)
+	var leaves func(v ssa.Value, depth int) []ssa.Value
+	leaves = func(v ssa.Value, depth int) []ssa.Value {
+		var out []ssa.Value
+		for _, lf := range m.e.producers(v, map[ssa.Value]bool{}, 0) {
+			if p, ok := lf.(*ssa.Parameter); ok && depth < 4 {
+				if args := m.argsFor(p); len(args) > 0 {
+					for _, a := range args {
+						out = append(out, leaves(a, depth+1)...)
+					}
+					continue
+				}
+			}
+			out = append(out, lf)
+		}
+		return out
+	}
+	n := 0
+	for _, lf := range leaves(v, 0) {
+		if isNilConst(lf) {
+			continue
+		}
+		n++
+		if !strings.HasSuffix(m.e.keyOf(lf).String(), suffix) {
+			return false
+		}
+	}
+	return n > 0
 }
